@@ -247,6 +247,11 @@ func hostileValues(rnd *rand.Rand, extra int) []hostile {
 		{"true", true, true}, {"false", false, true}, {"null", nil, true},
 		{"array", []interface{}{float64(1), "a", true}, true}, {"object", map[string]interface{}{"a": float64(1), "b": "x"}, true},
 	}
+	// every small integer: the enumerations of HAP (lock state, heating mode, ...) live here and most
+	// constructors of this tree declare no range
+	for v := 3; v <= 16; v++ {
+		hs = append(hs, hostile{fmt.Sprint(v), float64(v), true})
+	}
 	for i := 0; i < extra; i++ {
 		switch rnd.Intn(4) {
 		case 0:
@@ -425,6 +430,15 @@ var (
 	affected = map[string]map[string]struct{}{}
 )
 
+var panicSites = map[string]int{}
+
+func notePanic(site string) {
+	affMu.Lock()
+	panicSites[site]++
+	affMu.Unlock()
+	run.Distinct("panic_sites_skipped(C12)", site)
+}
+
 func violate(sig, what string, subj string, witness map[string]interface{}) {
 	affMu.Lock()
 	m := affected[sig]
@@ -519,6 +533,9 @@ func main() {
 		inproc(r, subjects)
 		httpPath(r, subjects)
 	})
+	if len(panicSites) > 0 {
+		r.Extra("panic_sites_skipped(C12)", panicSites)
+	}
 	if a := affectedSummary(); len(a) > 0 {
 		r.Extra("violations_by_signature", a)
 	}
